@@ -830,11 +830,6 @@ impl State {
         // TODO: remove this and calculations below that assume deals can be slashed
         let ever_slashed = state.slash_epoch != EPOCH_UNDEFINED;
 
-        if !ever_updated {
-            // pending deal might have been removed by manual settlement or cron so we don't care if it's missing
-            self.remove_pending_deal(store, *deal_cid)?;
-        }
-
         // if the deal was ever updated, make sure it didn't happen in the future
         if ever_updated && state.last_updated_epoch > epoch {
             return Err(actor_error!(
@@ -847,6 +842,16 @@ impl State {
         // this is a safe no-op but can happen if a storage provider calls settle_deal_payments too early
         if deal.start_epoch > epoch {
             return Ok((TokenAmount::zero(), TokenAmount::zero(), false, false));
+        }
+
+        // The proposal stays in the pending set (blocking re-publication of the identical signed
+        // proposal) until the first update after the deal's start epoch, i.e. for as long as
+        // the proposal could still be published.
+        if epoch > deal.start_epoch
+            && (!ever_updated || state.last_updated_epoch <= deal.start_epoch)
+        {
+            // pending deal might have been removed by manual settlement or cron so we don't care if it's missing
+            self.remove_pending_deal(store, *deal_cid)?;
         }
 
         let payment_end_epoch = if ever_slashed {
